@@ -6,7 +6,7 @@ set -u
 export GOFLAGS=-mod=mod GOPROXY=off GOSUMDB=off GOTOOLCHAIN=local
 D=$(cd "$1" && pwd); tier=${2:-quick}
 prop=$(python3 -c "import json;print(json.load(open('$D/meta.json'))['property'])")
-demodir=$(python3 -c "import json;print(json.load(open('$D/meta.json')).get('demo_dir','.'))")
+demodir=$(python3 -c "import json;d=json.load(open('$D/meta.json')).get('demo_dir','.') or '.';print(d.split()[0].rstrip('/') if d.strip() else '.')")
 S=$(mktemp -d /tmp/vseed.XXXXXX); trap 'rm -rf "$S"' EXIT
 rsync -a --exclude .git --exclude example-output /repo/ "$S/"
 rundemo() {
